@@ -5,6 +5,7 @@ wants to turn into stack traffic, on every *kind* of slot, with every way a late
   placement : the store/load pair sits in the main routine | inside a subroutine
   observers : none | a later direct load in the same routine | a load in another routine (shared slot) |
               a DynamicScratchVar pointing at the variable (`loads`) | the variable passed by reference to a subroutine
+  lead      : the scenario starts the routine | sits behind a conditional (no slot is mentioned in the routine's first basic block)
   settings  : every OptimizeOptions(scratch_slots, frame_pointers) in {None, True, False}^2 x versions 5..10
 
 Oracle: written out by hand per scenario (the logs each program must produce for application argument 41, and the final content of
@@ -16,13 +17,14 @@ KINDS = ("auto", "reserved", "lowid")
 PLACES = ("main", "sub")
 OBSERVERS = ("none", "later-load", "other-routine", "dynamic", "byref")
 SETTINGS = [(a, b) for a in (None, True, False) for b in (None, True, False)]
+LEADS = ("straight", "after-branch")
 
 
 def itob(n):
     return n.to_bytes(8, "big")
 
 
-def build(pt, kind, place, observer):
+def build(pt, kind, place, observer, lead="straight"):
     sid = {"auto": None, "reserved": 7, "lowid": 0}[kind]
     v = pt.ScratchVar(pt.TealType.uint64, sid) if sid is not None else pt.ScratchVar(pt.TealType.uint64)
     arg = pt.Btoi(pt.Txn.application_args[0])
@@ -56,12 +58,16 @@ def build(pt, kind, place, observer):
             return r.load()
         post = [pt.Log(pt.Itob(getref(v)))]
         expect.append(itob(41))
+    if lead == "after-branch":
+        # everything sits behind a conditional: none of the routine's slots is mentioned in its first basic block
+        pre = [pt.If(pt.Txn.fee() > pt.Int(2 ** 40)).Then(pt.Log(pt.Bytes("never")))] + pre
     prog = pt.Seq(*pre, core, *post, pt.Approve())
     return prog, expect, sid
 
 
 def case(job):
-    kind, place, observer, version = job
+    kind, place, observer, version = job[:4]
+    lead = job[4] if len(job) > 4 else "straight"
     from vf.core import use_repo
     use_repo()
     import pyteal as pt
@@ -71,7 +77,7 @@ def case(job):
         if fp is not None and version < 8 and fp:
             continue
         try:
-            prog, expect, sid = build(pt, kind, place, observer)
+            prog, expect, sid = build(pt, kind, place, observer, lead)
             kw = {}
             if ss is not None or fp is not None:
                 kw["optimize"] = pt.OptimizeOptions(scratch_slots=ss, frame_pointers=fp)
@@ -92,4 +98,4 @@ def case(job):
 
 def jobs(tier):
     versions = (5, 8, 9, 10) if tier == "quick" else (5, 6, 7, 8, 9, 10)
-    return [(k, p, o, v) for k, p, o in itertools.product(KINDS, PLACES, OBSERVERS) for v in versions]
+    return [(k, p, o, v, lead) for k, p, o in itertools.product(KINDS, PLACES, OBSERVERS) for v in versions for lead in LEADS]
